@@ -455,8 +455,34 @@ def run_stft(case):
   return R(None, nt, ("ola", fname, trans, ba))
 
 
+# ------------------------------------------------------------ calling routes
+from ..routes import routes_agree
+
+
+def route_table():
+  T = OrderedDict()
+  c = lambda v: (lambda: v)
+  blks = lambda: [[Q(1), Q(2), Q(3), Q(4)], [Q(-1), Q(0), Q(5), Q(2)], [Q(7), Q(7), Q(1), Q(0)]]
+  T["overlap_add.list"] = (overlap_add.list, [("blk_sig", blks), ("size", c(4)), ("hop", c(2)),
+                                              ("wnd", lambda: [Q(1), Q(2), Q(2), Q(1)]), ("normalize", c(False))],
+                           lambda g: [str(Q(v).f) for v in g])
+  return T
+
+
+def gen_routes(run):
+  for name in route_table():
+    yield (name,)
+
+
+def run_routes(case):
+  f, spec, canon = route_table()[case[0]]
+  return routes_agree(case[0], f, spec, canon)
+
+
 KINDS = OrderedDict([
   ("ola", Kind(gen_ola, run_ola, chunk=300, rule="overlap_add.list configurations; non-trivial: overlap or window")),
   ("reconstruction", Kind(gen_recon, run_recon, chunk=50, rule="blocks -> overlap-add; non-trivial: signal longer than a block")),
   ("stft", Kind(gen_stft, run_stft, chunk=400, rule="STFT wrapper configurations and calling styles")),
+  ("call-routes", Kind(gen_routes, run_routes, chunk=1,
+                       rule="each function with every documented parameter set: all positional / all keyword / every split must agree")),
 ])
